@@ -23,7 +23,7 @@ CHECKS = {
 }
 
 # properties whose checks are registered (theorems proved, check green on the unchanged tree)
-READY = {'C16', 'C12', 'C06', 'C13', 'C14', 'C20'}
+READY = {'C16', 'C12', 'C06', 'C13', 'C14', 'C20', 'C08', 'C03'}
 
 CHECKS['C12'] = (
     'Lean 4 theorems: round trip parse(encodeOps ops) = annotate ops for every well-formed operation sequence (any length, nesting depth, '
@@ -70,6 +70,26 @@ CHECKS['C20'] = (
     'Proof: build attributes and ARM unwind entries decode to exactly what is encoded, for all inputs; truncated byte-code operands are exactly IndexError.',
     'Correspondence-only: model vs code on malformed input, ELFFile section lookup glue, order-independence of the attribute API. Table references wrapping to >= 2^63 are excluded by hypothesis.',
     'DESIGN.md §6 C20')
+
+CHECKS['C08'] = (
+    'Lean 4 theorems: REL/RELA/MIPS64 entry round trip for every configuration; RELR expansion = the standard expansion for all word streams (bit-level '
+    'and stream induction); regenerated recipe tables walked by the kernel against the psABI table with, per T3-translated calc function, equality with the '
+    'psABI formula for all S, A, P, V; application frame theorem (only the field changes; value mod 2^(8w) in the file byte order); rejection theorems; '
+    'correspondence on Lean-assembled relocatable objects for every machine',
+    'Proof: relocation tables decode exactly; RELR expands to the addresses its anchors and bitmaps denote; each supported (machine, type) computes the psABI formula '
+    'truncated to the field width and leaves every other byte unchanged; unsupported types, wrong flavour and out-of-range symbols are the relocation error.',
+    'apply_section_eq_std is partial (hypothesis: parsing symbol i yields st_value = syms[i]; Elf_Sym layout is tied separately). Correspondence-only: '
+    'get_relocation_tables, find_relocations_for_section, get_dwarf_info glue. R_ARM_CALL/BPF modelled without psABI claim. R_*_NONE within 8 bytes of the section end '
+    'and MIPS64 plain relocations with non-zero type2/type3 are outside WF.',
+    'DESIGN.md §6 C08')
+CHECKS['C03'] = (
+    'Lean 4 theorems: Elf_Sym round trip (both classes), table enumeration / by-name lookup exact under a layout predicate; T3-translated gnu_hash and elf_hash '
+    '= the 32-bit gABI functions for all names; SysV and GNU hash lookup sound and complete on every well-formed table (bloom false positives, bucket and hash|1 '
+    'collisions), symbol counts exact; correspondence on Lean-built tables with forced collisions',
+    'Proof: symbol tables enumerate exactly; hash lookups return a symbol with the requested name iff one is in the hashed part; counts equal the table length.',
+    'buildSysV/buildGnu are not proved to satisfy WF (the driver evaluates WF on every generated table); syminfo iteration entry-level only; linked-section type checks and '
+    'malformed inputs correspondence-only; names are compared as UTF-8 bytes (invalid UTF-8 outside the theorems).',
+    'DESIGN.md §6 C03')
 
 NOT_YET = {
 }
